@@ -299,8 +299,12 @@ func forEachBoundaryCase(rec *stats.Rec, K int, forms []gen.TimeForm, fn func(k 
 		for hi := start; hi < len(hs); hi += step {
 			o := objs[hs[hi]]
 			for _, b := range bounds {
-				for _, d := range []time.Duration{-time.Second, 0, time.Second} {
+				for _, d := range []time.Duration{-time.Second, 0, time.Second, -500 * time.Millisecond, -time.Nanosecond, 500 * time.Millisecond} {
 					for fi, f := range forms {
+						// fractions of a second exist in GeneralizedTime only (OCSP times always are)
+						if d%time.Second != 0 && f != gen.GenZ && l.Kind != "ocsp" {
+							continue
+						}
 						k++
 						if !stats.Mine(k) {
 							continue
